@@ -102,20 +102,21 @@ static int binary_search(uintptr_t *list,
                          uintptr_t  findme,
                          size_t     len)
 {/*{{{*/
-    size_t max  = len;
-    size_t min  = 0;
-    size_t curs = max / 2;
+    size_t max = len;                  /* search the half-open range [min, max) */
+    size_t min = 0;
 
-    while (list[curs] != findme) {
-        if (list[curs] > findme) {
-            max = curs;
+    while (min < max) {
+        const size_t curs = min + ((max - min) / 2);
+
+        if (list[curs] == findme) {
+            return 1;
         } else if (list[curs] < findme) {
-            min = curs;
+            min = curs + 1;
+        } else {
+            max = curs;
         }
-        if (max == min + 1) { break; }
-        curs = (max + min) / 2;
     }
-    return (list[curs] == findme);
+    return 0;
 }/*}}}*/
 
 static void hazardous_scan(hazard_freelist_t *hfl)
